@@ -6,6 +6,7 @@ import (
 	"reflect"
 	"sort"
 	"strings"
+	"unsafe"
 )
 
 // deepHash walks a value structurally (pointers, slices, maps followed; funcs by code
@@ -199,74 +200,171 @@ func (e *env) sharedDiff() string {
 }
 
 // resetGlobals puts every package-level variable of the generated package back to the value it had when the
-// process started (shallow: scalars, arrays, strings, slice headers, pointers; maps are emptied and refilled with
-// their initial entries). Every execution - the solo references and the concurrent run - then starts from one
-// and the same state: without this a request that leaves its bytes in a package-level scratch variable is invisible
-// to the shared-state hash whenever its own solo reference run has already left the very same bytes there.
-// Variables that hold funcs (hooks the harness installs) or locks, pools and atomics are left alone.
+// process started - deeply: through pointers to the package's own types (in place, so the pointer identity
+// stays), slices (fresh copies), maps (emptied and refilled) and struct fields, exported or not. Every execution -
+// the solo references, the concurrent run, a replay in a fresh process - then starts from one and the same state:
+// without this a request that leaves its bytes in a package-level scratch variable is invisible to the shared-state
+// hash whenever its own solo reference run has already left the very same bytes there, and a finding that depends
+// on what earlier runs left in a hand-rolled pool does not reproduce from its tape. Funcs (hooks the harness
+// installs), channels, interfaces, locks/pools/atomics and opaque types of other packages are left alone.
 func (p *Pkg) resetGlobals() {
 	if p.globalInit == nil {
 		p.globalInit = map[string]reflect.Value{}
 		for n, g := range p.Globals {
 			v := reflect.ValueOf(g).Elem()
-			if !resettable(v.Type(), 0) {
-				continue
-			}
-			c := reflect.New(v.Type()).Elem()
-			if v.Kind() == reflect.Map && !v.IsNil() {
-				c.Set(reflect.MakeMapWithSize(v.Type(), v.Len()))
-				it := v.MapRange()
-				for it.Next() {
-					c.SetMapIndex(it.Key(), it.Value())
-				}
-				p.globalMaps = append(p.globalMaps, n)
-			} else {
-				c.Set(v)
-			}
-			p.globalInit[n] = c
+			p.globalInit[n] = cloneValue(v, 0, map[uintptr]reflect.Value{})
 		}
 		return
 	}
 	for n, init := range p.globalInit {
-		v := reflect.ValueOf(p.Globals[n]).Elem()
-		if v.Kind() == reflect.Map && !init.IsNil() {
-			if v.IsNil() {
-				continue
-			}
-			for _, k := range v.MapKeys() {
-				v.SetMapIndex(k, reflect.Value{})
-			}
-			it := init.MapRange()
-			for it.Next() {
-				v.SetMapIndex(it.Key(), it.Value())
-			}
-			continue
-		}
-		v.Set(init)
+		restoreInto(reflect.ValueOf(p.Globals[n]).Elem(), init, 0)
 	}
 }
 
-func resettable(t reflect.Type, d int) bool {
-	if d > 8 {
-		return false
-	}
-	if pp := t.PkgPath(); pp == "sync" || pp == "sync/atomic" {
-		return false
+func ownOrPlain(t reflect.Type) bool {
+	pp := t.PkgPath()
+	return pp == "" || strings.HasPrefix(pp, "verifsim/gen/")
+}
+
+func isSyncT(t reflect.Type) bool {
+	pp := t.PkgPath()
+	return pp == "sync" || pp == "sync/atomic"
+}
+
+func leaveAlone(t reflect.Type) bool {
+	if isSyncT(t) || t.Kind() == reflect.Chan {
+		return false // see restoreInto: zeroed / made afresh
 	}
 	switch t.Kind() {
-	case reflect.Func, reflect.Chan, reflect.UnsafePointer, reflect.Interface:
-		return false
+	case reflect.Func, reflect.UnsafePointer, reflect.Interface:
+		return true
 	case reflect.Struct:
-		for i := 0; i < t.NumField(); i++ {
-			if !t.Field(i).IsExported() && t.PkgPath() != "" && !strings.HasPrefix(t.PkgPath(), "verifsim/gen/") {
-				return false // opaque type of another package
+		return !ownOrPlain(t) // opaque type of another package: its zero/initial value is not ours to reconstruct
+	}
+	return false
+}
+
+// writable returns v itself, or - for a value reached through an unexported field - an equivalent settable value.
+func writable(v reflect.Value) reflect.Value {
+	if v.CanSet() || !v.CanAddr() {
+		return v
+	}
+	return reflect.NewAt(v.Type(), unsafe.Pointer(v.UnsafeAddr())).Elem()
+}
+
+func readable(v reflect.Value) reflect.Value {
+	if v.CanInterface() || !v.CanAddr() {
+		return v
+	}
+	return reflect.NewAt(v.Type(), unsafe.Pointer(v.UnsafeAddr())).Elem()
+}
+
+// cloneValue makes the pristine copy (always addressable, so that unexported fields can be read back later).
+func cloneValue(v reflect.Value, d int, seen map[uintptr]reflect.Value) reflect.Value {
+	v = readable(v)
+	out := reflect.New(v.Type()).Elem()
+	if isSyncT(v.Type()) {
+		return out // a lock, Once, WaitGroup, Pool: its pristine state is the zero value
+	}
+	if d > 16 || leaveAlone(v.Type()) || v.Kind() == reflect.Chan {
+		out.Set(v)
+		return out
+	}
+	switch v.Kind() {
+	case reflect.Pointer:
+		if v.IsNil() || leaveAlone(v.Type().Elem()) {
+			out.Set(v)
+			return out
+		}
+		if c, ok := seen[v.Pointer()]; ok {
+			out.Set(c)
+			return out
+		}
+		np := reflect.New(v.Type().Elem())
+		seen[v.Pointer()] = np
+		np.Elem().Set(cloneValue(v.Elem(), d+1, seen))
+		out.Set(np)
+	case reflect.Struct:
+		for i := 0; i < v.NumField(); i++ {
+			writable(out.Field(i)).Set(cloneValue(v.Field(i), d+1, seen))
+		}
+	case reflect.Slice:
+		if v.IsNil() {
+			return out
+		}
+		ns := reflect.MakeSlice(v.Type(), v.Len(), v.Len())
+		for i := 0; i < v.Len(); i++ {
+			ns.Index(i).Set(cloneValue(v.Index(i), d+1, seen))
+		}
+		out.Set(ns)
+	case reflect.Array:
+		for i := 0; i < v.Len(); i++ {
+			out.Index(i).Set(cloneValue(v.Index(i), d+1, seen))
+		}
+	case reflect.Map:
+		if v.IsNil() {
+			return out
+		}
+		nm := reflect.MakeMapWithSize(v.Type(), v.Len())
+		it := v.MapRange()
+		for it.Next() {
+			nm.SetMapIndex(it.Key(), cloneValue(it.Value(), d+1, seen))
+		}
+		out.Set(nm)
+	default:
+		out.Set(v)
+	}
+	return out
+}
+
+// restoreInto makes live equal to a fresh copy of init, in place where identity matters.
+func restoreInto(live, init reflect.Value, d int) {
+	live = writable(live)
+	if !live.CanSet() {
+		return
+	}
+	if isSyncT(live.Type()) {
+		// no task is alive between executions: a Once that has fired, a mutex a dead run left locked, a WaitGroup
+		// counter go back to their zero value (a helper goroutine started "once" is started again by the next execution)
+		live.Set(reflect.Zero(live.Type()))
+		return
+	}
+	if d > 16 || leaveAlone(live.Type()) {
+		return // never touched: a hook, an opaque value
+	}
+	switch live.Kind() {
+	case reflect.Chan:
+		// a fresh channel of the same capacity: goroutines that a dead run left blocked on the old one stay there
+		if init.IsNil() || live.Type().ChanDir() != reflect.BothDir {
+			live.Set(init)
+		} else {
+			live.Set(reflect.MakeChan(live.Type(), init.Cap()))
+		}
+	case reflect.Pointer:
+		switch {
+		case init.IsNil():
+			live.Set(init)
+		case leaveAlone(live.Type().Elem()):
+			// the pointer itself is ours, what it points to is not
+			if live.IsNil() {
+				live.Set(init)
 			}
-			if !resettable(t.Field(i).Type, d+1) {
-				return false
-			}
+		case live.IsNil():
+			live.Set(cloneValue(init, d, map[uintptr]reflect.Value{}))
+		default:
+			restoreInto(live.Elem(), init.Elem(), d+1) // same object, pristine content
+		}
+	case reflect.Struct:
+		for i := 0; i < live.NumField(); i++ {
+			restoreInto(live.Field(i), init.Field(i), d+1)
 		}
 	case reflect.Array:
-		return resettable(t.Elem(), d+1)
+		for i := 0; i < live.Len(); i++ {
+			restoreInto(live.Index(i), init.Index(i), d+1)
+		}
+	case reflect.Slice, reflect.Map:
+		live.Set(cloneValue(init, d, map[uintptr]reflect.Value{}))
+	default:
+		live.Set(init)
 	}
-	return true
 }
